@@ -389,6 +389,11 @@ fn judge_pathological(acc: &mut Acc, rank: u64, c: &J, obs: &ChildObs) {
             }
         }
         ChildObs::Panicked(p) => acc.violation("pathological", "panic", &format!("panic:{}", cls_base), rank, w, p.clone(), || c.clone()),
+        ChildObs::Died(how) if how.contains("signal 9") => {
+            // killed from outside (out of memory) even when run alone: not an observation of the code
+            eprintln!("MACHINERY: pathological case killed by the kernel even when run alone: {}", c);
+            std::process::exit(2);
+        }
         ChildObs::Died(how) => acc.violation("pathological", "process-died", &format!("process-died:{}", cls_base), rank, w, format!("the process died ({}) — unbounded recursion / stack overflow", how), || c.clone()),
         ChildObs::TimedOut(t) => acc.violation("pathological", "no-answer", &format!("no-answer:{}", cls_base), rank, w, format!("no answer within {} s", t), || c.clone()),
     }
@@ -680,7 +685,9 @@ pub fn run(ctx: &Ctx) -> Report {
             "E4 (child processes, 2 MiB thread stack, 20 s watchdog): each of the 9 openers and every ordered pair (thorough: triples) repeated to 10^3 / 10^6 bytes; 10^6-byte unterminated strings, escapes, comments, symbols, digit / exponent / hex runs, long flat lists, the same cut inside a UTF-8 sequence; x {default, elisp} x {str, reader} x {value, datum}: the call must return (Ok or Err), and over-deep nesting must be rejected; non-trivial = the call returned",
             &format!("{} child cases", cases.len()),
         );
-        let obs = run_children(&cases, ctx.threads.min(16), 20, "c03");
+        // an inconclusive observation (no answer within 20 s on a loaded machine, killed by the
+        // kernel) is repeated alone with 300 s before it counts
+        let obs = crate::engine::child::run_children_retry(&cases, ctx.threads.min(16), 20, 300, "c03");
         let mut acc = Acc::new();
         for (i, (c, o)) in cases.iter().zip(obs.iter()).enumerate() {
             if i < 3 || i % (cases.len() / 8).max(1) == 0 {
